@@ -4,6 +4,8 @@ import (
 	"bytes"
 	"encoding/hex"
 	"fmt"
+	"math/big"
+	"strings"
 	"testing"
 
 	"golang.org/x/crypto/curve25519"
@@ -137,6 +139,13 @@ func c11UClass(t *rapid.T) ([]byte, string) {
 		k := rapid.Int64Range(0, 40).Draw(t, "k")
 		u = ref.IntLE(bigI(k), 32)
 		label = "u=small"
+	case 5, 6:
+		// near a distinguished value: the base point, a low-order point, 0/1/p-1/p/2^255-1 with a
+		// structured perturbation (bit flips anywhere, the top or bottom bit of whole bytes, bytes set
+		// to a constant).  A comparison "is this the base point / a low-order point" that looks at
+		// the wrong bytes or masks too much only shows on such neighbours.
+		u = c11Special(t)
+		label = "u=near-special:" + c11Perturb(t, u)
 	default:
 		u = gen.RandBytes(t, "u", 32)
 		u[31] &= 0x7f
@@ -149,6 +158,80 @@ func c11UClass(t *rapid.T) ([]byte, string) {
 		u[31] &= 0x7f
 	}
 	return u, label
+}
+
+// c11Specials are the distinguished u encodings whose neighbourhoods are searched.
+func c11Specials() [][]byte {
+	p := ref.P25519()
+	out := [][]byte{append([]byte(nil), curve25519.Basepoint...)}
+	for _, lo := range c11LowOrder {
+		out = append(out, unhex(lo))
+	}
+	out = append(out,
+		ref.IntLE(new(big.Int).Add(p, bigI(9)), 32), // alias of the base point
+		ref.IntLE(new(big.Int).Sub(p, bigI(9)), 32),
+		bytes.Repeat([]byte{0xff}, 32),
+		ref.IntLE(bigI(2), 32), ref.IntLE(bigI(8), 32), ref.IntLE(bigI(16), 32))
+	return out
+}
+
+func top255(u []byte) bool { return u[31]&0x80 != 0 }
+
+func canonical(u []byte) bool {
+	v := append([]byte(nil), u...)
+	v[31] &= 0x7f
+	return ref.LEInt(v).Cmp(ref.P25519()) < 0
+}
+
+func c11Special(t *rapid.T) []byte {
+	sp := c11Specials()
+	// the base point is the value with dedicated code paths: give it a third of the draws
+	if rapid.IntRange(0, 2).Draw(t, "isBase") == 0 {
+		return append([]byte(nil), sp[0]...)
+	}
+	return append([]byte(nil), sp[rapid.IntRange(1, len(sp)-1).Draw(t, "special")]...)
+}
+
+// c11Perturb changes u in place and names the perturbation kind.
+func c11Perturb(t *rapid.T, u []byte) string {
+	n := rapid.IntRange(1, 4).Draw(t, "nperturb")
+	switch rapid.IntRange(0, 4).Draw(t, "perturb") {
+	case 0:
+		for i := 0; i < n; i++ {
+			b := rapid.IntRange(0, 255).Draw(t, "bit")
+			u[b/8] ^= 1 << (b % 8)
+		}
+		return "bits"
+	case 1:
+		for i := 0; i < n; i++ {
+			u[rapid.IntRange(0, 31).Draw(t, "byte")] ^= 0x80
+		}
+		return "msb"
+	case 2:
+		for i := 0; i < n; i++ {
+			u[rapid.IntRange(0, 31).Draw(t, "byte")] ^= 0x01
+		}
+		return "lsb"
+	case 3:
+		v := rapid.SampledFrom([]byte{0x80, 0xff, 0x01, 0x7f, 0x00}).Draw(t, "const")
+		for i := 0; i < n; i++ {
+			u[rapid.IntRange(0, 31).Draw(t, "byte")] = v
+		}
+		return "setbytes"
+	default:
+		// all bytes but the first (or the last) get the same flip
+		v := rapid.SampledFrom([]byte{0x80, 0x01, 0xff}).Draw(t, "const")
+		lo, hi := 1, 32
+		if rapid.Bool().Draw(t, "keepLast") {
+			lo, hi = 0, 31
+		}
+		for i := lo; i < hi; i++ {
+			if rapid.IntRange(0, 1).Draw(t, "sel") == 0 {
+				u[i] ^= v
+			}
+		}
+		return "spread"
+	}
 }
 
 func TestC11(t *testing.T) {
@@ -169,7 +252,7 @@ func TestC11(t *testing.T) {
 		if uc[:5] != "u=ran" {
 			key += "|" + hex.EncodeToString(u[:4]) + hex.EncodeToString(u[28:])
 		}
-		c.Case(uc != "u=random" && uc != "u=small" && uc != "u=p-k", key, sc, uc)
+		c.Case(uc != "u=random" && uc != "u=small" && uc != "u=p-k" && !strings.HasPrefix(uc, "u=near-special") || top255(u) || !canonical(u), key, sc, uc)
 		if c.WantSample() {
 			c.Sample(map[string]string{"scalar": hex.EncodeToString(scalar), "u": hex.EncodeToString(u), "class": key})
 		}
@@ -293,4 +376,26 @@ func TestC11(t *testing.T) {
 		}
 	}
 	c.Exhaustive("low-order u (7) x top bit (2) x fixed scalars", n)
+	// every single-bit neighbour of every distinguished u, against two scalars (split over shards)
+	n = 0
+	idx := 0
+	for si, sp := range c11Specials() {
+		for bit := 0; bit < 256; bit++ {
+			idx++
+			if !ev.Mine(idx) {
+				continue
+			}
+			u := append([]byte(nil), sp...)
+			u[bit/8] ^= 1 << (bit % 8)
+			for _, s := range scalars[2:4] {
+				if err := c11Check(s, u); err != nil {
+					c.Violation(err.Error(), "")
+					t.Fatalf("VF-VIOLATION: property=C11 %v", err)
+				}
+			}
+			c.Case(true, fmt.Sprintf("flip|%d|%d", si, bit), "table:single-bit-neighbour")
+			n++
+		}
+	}
+	c.Exhaustive("single-bit neighbours of distinguished u values (this shard's share of 14 x 256) x 2 scalars", n)
 }
